@@ -40,6 +40,14 @@ Additional subset (everything else still raises Untranslatable):
     `x[i]`), `x[None, :]` (entry (i, j) is `x[j]`), `X[:, :]`; `np.sum(X, axis=0)[j]` = the column entries added in index
     order from 0 (the number of rows is declared in `nrows`); `W.dot(x)` is the declared external `dot` (BLAS: the order of
     the additions is not specified by numpy) applied to W, x, len(x) and the row index;
+  * `[a, *xs, b]` (lists of scalars: `[a] ++ xs ++ [b]`); `x = self.attr` for an optional scalar attribute ('opt') followed by
+    `if x is None or c(x): x = e` (short-circuit `or`): `match x with | none => e | some v => if c(v) then e else v`;
+  * `np.append(A, v)[i]` = `A[i]` for `i < len(A)`, else the scalar `v`; a declared external array function of one array
+    (`arr_fn_externals`, e.g. np.gradient) is a parameter applied to the array, its length and the index;
+  * ALIASING: arrays are translated as values.  An in-place store (`a[k] = e`, `a[lo:hi] = E`, `a[:] = c`, `a += E`) is only
+    translated when `a` was created in this function as a fresh array (np.zeros, an arithmetic result, a result of a
+    translated function) and neither is a view (name / attribute / basic slice of another array), nor has a live view, nor
+    was put into a list — otherwise Untranslatable (numpy views share memory);
   * stores `a[k] = e` (k may be a negative literal when the length of `a` is known) and `a[lo:hi] = E` on a local array or an
     array state attribute: `fun i => if lo ≤ i ∧ i < hi then E[i - lo] else a i`;
   * `np.power(x, y)` is `x ** y`; `x ** y` with `y` not an integral literal and `x` not the literal 10 is the declared
@@ -89,6 +97,12 @@ def known_entry(self, node):
 
 
 def is_arr(self, node, env):
+    if isinstance(node, ast.Call) and ast.unparse(node.func) in self.spec.get('arr_fn_externals', {}) \
+            and len(node.args) == 1 and not node.keywords:
+        return is_arr(self, node.args[0], env)
+    if isinstance(node, ast.Call) and ast.unparse(node.func) in ('np.append', 'numpy.append') and len(node.args) == 2 \
+            and not node.keywords:
+        return is_arr(self, node.args[0], env) and not is_arr(self, node.args[1], env)
     if colsum_call(self, node) is not None:
         return is_arr2(self, colsum_call(self, node), env)
     if dot_call(self, node, env) is not None:
@@ -141,6 +155,12 @@ def is_arr(self, node, env):
 
 def arr_len(self, node, env):
     """AST of the length of an array-valued expression, or None when it is not tracked"""
+    if isinstance(node, ast.Call) and ast.unparse(node.func) in self.spec.get('arr_fn_externals', {}) \
+            and len(node.args) == 1:
+        return arr_len(self, node.args[0], env)            # (declared: the result has the length of the argument)
+    if isinstance(node, ast.Call) and ast.unparse(node.func) in ('np.append', 'numpy.append') and len(node.args) == 2:
+        ln = arr_len(self, node.args[0], env)
+        return ast.BinOp(left=ln, op=ast.Add(), right=_const(1)) if ln is not None else None
     if isinstance(node, ast.Attribute) and seq_elem(self, node.value, env) is not None:
         ln = elem_attr(self, node, env)[2]
         return _nm(ln) if ln else None
@@ -197,6 +217,15 @@ def at(self, node, env, idx):
         return node
     if colsum_call(self, node) is not None:
         return ast.Call(func=_nm('__colsum__'), args=[colsum_call(self, node), idx], keywords=[])
+    if isinstance(node, ast.Call) and ast.unparse(node.func) in self.spec.get('arr_fn_externals', {}):
+        return ast.Subscript(value=node, slice=idx, ctx=ast.Load())
+    if isinstance(node, ast.Call) and ast.unparse(node.func) in ('np.append', 'numpy.append'):
+        # np.append(A, v)[i] = A[i] for i < len(A), then the scalar v
+        ln = arr_len(self, node.args[0], env)
+        if ln is None:
+            self.fail(node, 'np.append to an array of unknown length')
+        return ast.IfExp(test=ast.Compare(left=idx, ops=[ast.Lt()], comparators=[ln]),
+                         body=at(self, node.args[0], env, idx), orelse=node.args[1])
     if dot_call(self, node, env) is not None:
         return ast.Subscript(value=node, slice=idx, ctx=ast.Load())
     if isinstance(node, ast.Call) and len(node.args) == 1 and self.call_name(node)[0] in ('abs', 'fabs'):
@@ -521,6 +550,33 @@ def stmt_ext(self, s, env, ind, rest, tail, inline):
             other = self.block(rest, env, ind + '  ', tail)
             return '%sif %s then\n%s  %s\n%selse\n%s' % (ind, call_known2(self, s.value, env, e), ind,
                                                          self.raise_value, ind, other), True
+    # ---- x = self.attr   (an optional 2-D array attribute)
+    if isinstance(s, ast.Assign) and len(s.targets) == 1 and isinstance(s.targets[0], ast.Name) \
+            and isinstance(s.value, ast.Attribute) and ast.unparse(s.value) in self.attrs \
+            and self.attrs[ast.unparse(s.value)][1] == 'optarr2' and env.get(s.targets[0].id) is None:
+        nm = self.attrs[ast.unparse(s.value)][0]
+        self.add_param(nm, self.lean_ty('optarr2'))
+        env[s.targets[0].id] = 'optarr2'
+        return '%slet %s := %s\n' % (ind, self.var(s.targets[0].id), nm), False
+    # ---- if x is None: x = <2-D array>   (x an optional 2-D array: afterwards x is a 2-D array)
+    if isinstance(s, ast.If) and not s.orelse and len(s.body) == 1 and isinstance(s.body[0], ast.Assign) \
+            and isinstance(s.test, ast.Compare) and len(s.test.ops) == 1 and isinstance(s.test.ops[0], ast.Is) \
+            and isinstance(s.test.left, ast.Name) and env.get(s.test.left.id) == 'optarr2' \
+            and isinstance(s.test.comparators[0], ast.Constant) and s.test.comparators[0].value is None \
+            and len(s.body[0].targets) == 1 and isinstance(s.body[0].targets[0], ast.Name) \
+            and s.body[0].targets[0].id == s.test.left.id:
+        x = s.test.left.id
+        v = s.body[0].value
+        e = known_entry(self, v) if isinstance(v, ast.Call) else None
+        if e is not None and e.get('returns') == 'arr2':
+            dflt = call_known2(self, v, env, e)
+        elif is_arr2(self, v, env):
+            dflt = arr2_lambda(self, v, env)
+        else:
+            self.fail(s, 'a 2-D array was expected')
+        env[x] = 'arr2'
+        return '%slet %s : Nat → Nat → α := (match %s with | some v__ => v__ | none => %s)\n' % (
+            ind, self.var(x), self.var(x), dflt), False
     # ---- if x is None: x = <array>      (x an optional array parameter: afterwards x is an array)
     if isinstance(s, ast.If) and not s.orelse and len(s.body) == 1 and isinstance(s.body[0], ast.Assign) \
             and isinstance(s.test, ast.Compare) and len(s.test.ops) == 1 and isinstance(s.test.ops[0], ast.Is) \
@@ -548,17 +604,20 @@ def stmt_ext(self, s, env, ind, rest, tail, inline):
             self.literals.add(0)
             env[t.id] = 'arr'
             env[('#len', t.id)] = n
+            note_binding(self, t.id, None, env)
             return '%slet %s : Nat → α := fun _ => (0 : α)\n' % (ind, self.var(t.id)), False
         # ---- x[:] = scalar
         if isinstance(t, ast.Subscript) and isinstance(t.value, ast.Name) and env.get(t.value.id) == 'arr' \
                 and isinstance(t.slice, ast.Slice) and t.slice.lower is None and t.slice.upper is None \
                 and t.slice.step is None and not is_arr(self, v, env):
+            check_mutation(self, t.value.id, env, s)
             return '%slet %s : Nat → α := fun _ => %s\n' % (ind, self.var(t.value.id), self.expr(v, env)), False
         # ---- x = <array expression>
         if isinstance(t, ast.Name) and env.get(t.id) in (None, 'arr') and is_arr(self, v, env) \
                 and self.alloc_idiom(v) is None:
             txt = '%slet %s : Nat → α := %s\n' % (ind, self.var(t.id), arr_lambda(self, v, env))
             ln = arr_len(self, v, env)
+            note_binding(self, t.id, v, env)
             env[t.id] = 'arr'
             env.pop(('#len', t.id), None)
             if ln is not None:
@@ -569,6 +628,7 @@ def stmt_ext(self, s, env, ind, rest, tail, inline):
             key = ast.unparse(t)
             txt = '%slet %s : Nat → α := %s\n' % (ind, self.attrs[key][0], arr_lambda(self, v, env))
             ln = arr_len(self, v, env)
+            note_binding(self, key, v, env)
             env[key] = 'arr'
             env.pop(('#len', key), None)
             if ln is not None:
@@ -588,6 +648,7 @@ def stmt_ext(self, s, env, ind, rest, tail, inline):
                     out += '%slet %s := %s\n' % (ind, self.var(x.id), path if last else path + '.1')
                     path += '.2'
                     env[x.id] = k
+                    note_binding(self, x.id, None, env)
                     env.pop(('#len', x.id), None)
                 return out, False
     # ---- return e1, e2, ...   /   return <array expression>
@@ -602,6 +663,40 @@ def stmt_ext(self, s, env, ind, rest, tail, inline):
         if ret == 'arr' and not (isinstance(s.value, ast.Name) and env.get(s.value.id) == 'arr'):
             return ind + arr_lambda(self, s.value, env) + '\n', True
     return None
+
+
+# ----------------------------------------------------------------------------- aliasing (numpy views share memory)
+def view_roots(self, node, env):
+    """the array variables whose memory the value of `node` may share (names / attributes / basic slices are views)"""
+    if isinstance(node, ast.Name):
+        return {node.id} if env.get(node.id) in ('arr', 'arr2') else set()
+    if isinstance(node, ast.Attribute):
+        return {ast.unparse(node)}
+    if isinstance(node, ast.Subscript):
+        return view_roots(self, node.value, env)
+    if isinstance(node, ast.Call) and isinstance(node.func, ast.Attribute) \
+            and node.func.attr in ('ravel', 'reshape', 'view', 'squeeze', 'transpose'):
+        return view_roots(self, node.func.value, env)
+    return set()
+
+
+def note_binding(self, key, value, env):
+    """`key` (a local array or array state attribute) is bound to the value of `value` (None: a fresh array)"""
+    env[('#local', key)] = True
+    env[('#views', key)] = view_roots(self, value, env) - {key} if value is not None else set()
+
+
+def check_mutation(self, key, env, node):
+    """an in-place store into array `key` is only translated (as a new value of `key`) when nothing else can observe it"""
+    if not env.get(('#local', key)):
+        self.fail(node, 'in-place store into an array that was not created in this function')
+    if env.get(('#views', key)):
+        self.fail(node, 'in-place store into a view of %s' % sorted(env[('#views', key)]))
+    if env.get(('#inlist', key)):
+        self.fail(node, 'in-place store into an array that was put into a list')
+    for k, v in list(env.items()):
+        if isinstance(k, tuple) and k[0] == '#views' and k[1] != key and key in v:
+            self.fail(node, 'in-place store into an array that %s is a view of' % k[1])
 
 
 # ----------------------------------------------------------------------------- 2-D array expressions
@@ -759,6 +854,9 @@ def rows_expr(self, node, env):
     if kind_of(self, node, env) == 'rows':
         return list_name(self, node, env)
     if isinstance(node, ast.List) and node.elts and all(is_arr(self, e, env) for e in node.elts):
+        for e in node.elts:
+            for r in view_roots(self, e, env):
+                env[('#inlist', r)] = True
         return '[' + ', '.join(arr_lambda(self, e, env) for e in node.elts) + ']'
     if isinstance(node, ast.BinOp) and isinstance(node.op, ast.Add):
         l, r = rows_expr(self, node.left, env), rows_expr(self, node.right, env)
@@ -775,6 +873,20 @@ def rows_expr(self, node, env):
 def slist_expr(self, node, env):
     if kind_of(self, node, env) == 'slist':
         return list_name(self, node, env)
+    if isinstance(node, ast.List) and node.elts:
+        # [a, *xs, b]: the concatenation of the singletons and the starred lists, in order
+        parts = []
+        for e in node.elts:
+            if isinstance(e, ast.Starred):
+                x = slist_expr(self, e.value, env)
+                if x is None:
+                    return None
+                parts.append(x)
+            else:
+                if is_arr(self, e, env) or is_arr2(self, e, env):
+                    return None
+                parts.append('[%s]' % self.expr(e, env))
+        return '(' + ' ++ '.join(parts) + ')'
     return None
 
 
@@ -855,6 +967,44 @@ def seq_stmt(self, s, env, ind, rest, tail, inline):
         if str(self.spec.get('returns', '')).startswith('opt'):
             res = '(some %s)' % res
         return txt + ind + res + '\n', True
+    # ---- x = self.attr   (an optional scalar attribute)
+    if isinstance(s, ast.Assign) and len(s.targets) == 1 and isinstance(s.targets[0], ast.Name) \
+            and isinstance(s.value, ast.Attribute) and ast.unparse(s.value) in self.attrs \
+            and self.attrs[ast.unparse(s.value)][1] == 'opt' and env.get(s.targets[0].id) is None:
+        nm = self.attrs[ast.unparse(s.value)][0]
+        self.add_param(nm, self.lean_ty('opt'))
+        env[s.targets[0].id] = 'opt'
+        return '%slet %s := %s\n' % (ind, self.var(s.targets[0].id), nm), False
+    # ---- if x is None or c(x): x = e     (x optional; `or` evaluates c(x) only when x is not None): afterwards x is a scalar
+    if isinstance(s, ast.If) and not s.orelse and len(s.body) == 1 and isinstance(s.body[0], ast.Assign) \
+            and len(s.body[0].targets) == 1 and isinstance(s.body[0].targets[0], ast.Name) \
+            and env.get(s.body[0].targets[0].id) == 'opt':
+        x = s.body[0].targets[0].id
+        tests = s.test.values if isinstance(s.test, ast.BoolOp) and isinstance(s.test.op, ast.Or) else [s.test]
+        t0 = tests[0]
+        if isinstance(t0, ast.Compare) and len(t0.ops) == 1 and isinstance(t0.ops[0], ast.Is) \
+                and isinstance(t0.left, ast.Name) and t0.left.id == x and isinstance(t0.comparators[0], ast.Constant) \
+                and t0.comparators[0].value is None:
+            e = self.expr(s.body[0].value, env)
+            env2 = dict(env)
+            env2[x] = 's'
+            saved = dict(self.rename)
+            self.rename[x] = 'v__'
+            try:
+                cs = [self.cond(c, env2) for c in tests[1:]]
+            finally:
+                self.rename = saved
+            inner = 'if (%s) then %s else v__' % (' || '.join(cs), e) if cs else 'v__'
+            env[x] = 's'
+            return '%slet %s : α := (match %s with | none => %s | some v__ => %s)\n' % (
+                ind, self.var(x), self.var(x), e, inner), False
+    # ---- x = <list of scalars>
+    if isinstance(s, ast.Assign) and len(s.targets) == 1 and isinstance(s.targets[0], ast.Name) \
+            and env.get(s.targets[0].id) in (None, 'slist') and isinstance(s.value, ast.List) and s.value.elts:
+        r = slist_expr(self, s.value, env)
+        if r is not None:
+            env[s.targets[0].id] = 'slist'
+            return '%slet %s : List α := %s\n' % (ind, self.var(s.targets[0].id), r), False
     # ---- x = []
     if isinstance(s, ast.Assign) and len(s.targets) == 1 and isinstance(s.targets[0], ast.Name) \
             and isinstance(s.value, ast.List) and not s.value.elts and s.targets[0].id in locs:
@@ -873,6 +1023,8 @@ def seq_stmt(self, s, env, ind, rest, tail, inline):
             and s.value.func.attr == 'append' and isinstance(s.value.func.value, ast.Name) \
             and env.get(s.value.func.value.id) in ('rows', 'slist') and len(s.value.args) == 1 and not s.value.keywords:
         x = s.value.func.value.id
+        for r in view_roots(self, s.value.args[0], env):
+            env[('#inlist', r)] = True
         e = arr_lambda(self, s.value.args[0], env) if env[x] == 'rows' else self.expr(s.value.args[0], env)
         return '%slet %s := (%s ++ [%s])\n' % (ind, self.var(x), self.var(x), e), False
     # ---- x = <rows expression>
@@ -911,6 +1063,8 @@ def seq_stmt(self, s, env, ind, rest, tail, inline):
         is_local = isinstance(b, ast.Name) and env.get(key) == 'arr'
         sl = t.slice
         whole = isinstance(sl, ast.Slice) and sl.lower is None and sl.upper is None and sl.step is None
+        if is_local or is_state:
+            check_mutation(self, key, env, s)              # (also for the stores translate.py's own rule handles)
         if (is_state or (is_local and isinstance(sl, ast.Slice))) and not (is_local and whole):
             nm = self.var(key)
             ln = arr_len(self, b, env)
@@ -938,12 +1092,16 @@ def seq_stmt(self, s, env, ind, rest, tail, inline):
             e = self.expr(at(self, s.value, env, j), env2)
             return '%slet %s : Nat → α := fun i__ => if %s ≤ i__ ∧ i__ < %s then %s else %s i__\n' % (
                 ind, nm, lo, hi, e, nm), False
+    if isinstance(s, ast.AugAssign) and isinstance(s.target, ast.Subscript) and isinstance(s.target.value, ast.Name) \
+            and env.get(s.target.value.id) == 'arr':
+        check_mutation(self, s.target.value.id, env, s)
     # ---- a += <array>   (a an array variable or an array state attribute)
     if isinstance(s, ast.AugAssign) and isinstance(s.op, (ast.Add, ast.Sub, ast.Mult, ast.Div)):
         t = s.target
         key = t.id if isinstance(t, ast.Name) else ast.unparse(t)
         if isinstance(t, (ast.Name, ast.Attribute)) and env.get(key) == 'arr' \
                 and (isinstance(t, ast.Name) or key in self.state):
+            check_mutation(self, key, env, s)
             load = _nm(t.id) if isinstance(t, ast.Name) else t
             e = arr_lambda(self, ast.BinOp(left=load, op=s.op, right=s.value), env)
             return '%slet %s : Nat → α := %s\n' % (ind, self.var(key), e), False
@@ -988,6 +1146,17 @@ def seq_expr(self, node, env):
         if l is not None:
             self.literals.add(0)
             return '(List.foldl (fun a__ b__ => (a__ + b__)) (0 : α) %s)' % l
+    if isinstance(node, ast.Subscript) and not isinstance(node.slice, (ast.Slice, ast.Tuple)) \
+            and isinstance(node.value, ast.Call) \
+            and ast.unparse(node.value.func) in self.spec.get('arr_fn_externals', {}) and len(node.value.args) == 1:
+        # an external array function of one array (e.g. np.gradient): applied to the array, its length and the index
+        nm = self.spec['arr_fn_externals'][ast.unparse(node.value.func)]
+        a = node.value.args[0]
+        ln = arr_len(self, a, env)
+        if ln is None:
+            self.fail(node, 'external array function of an array of unknown length')
+        self.add_param(nm, '(Nat → α) → Nat → Nat → α')
+        return '(%s %s %s %s)' % (nm, arr_lambda(self, a, env), self.nat(ln, env), self.nat(node.slice, env))
     if isinstance(node, ast.Call) and ast.unparse(node.func) == '__colsum__':
         # np.sum(X, axis=0)[j]: the entries X[0][j], X[1][j], … added in index order (from 0)
         x, j = node.args
